@@ -1,7 +1,7 @@
 // C12: Hull (monotone chain) and Simplify (SimplifyRing) of CrossSection,
 // anonymous-namespace functions of cross_section.cpp.
 #include "vf_harness.h"
-#include "/repo/src/cross_section.cpp"
+#include "cross_section.cpp"
 using namespace manifold;
 #ifndef VF_LEN
 #define VF_LEN 4
